@@ -14,8 +14,8 @@
                  outs (pre ++ [Check t1 d1] ++ mid) = outs pre ++ [c1]   says: nothing was sent during mid.
    All constants are those of the working tree (Gen/C10Consts.v, regenerated on every run);
    C10_cam_constants / C10_vam_constants pin them to the values of the property text. *)
-From FlexVerif Require Import Base.Prelude Gen.C10Consts Model.CamGen Model.VamGen
-  Proofs.CamGenProofs Proofs.VamGenProofs.
+From FlexVerif Require Import Base.Prelude Gen.C10Consts Model.CamGen Model.VamGen Model.CamPath
+  Proofs.CamGenProofs Proofs.VamGenProofs Proofs.CamPathProofs.
 From Coq Require Import QArith Qabs Qminmax.
 Open Scope Z_scope.
 
@@ -230,6 +230,37 @@ Theorem C10_vam_failed_report_no_trace : forall pre r post,
 Proof. exact tv_failed_no_trace. Qed.
 Print Assumptions C10_vam_failed_report_no_trace.
 
+(* The service must not lose a CAM that is due by building one the encoder has to reject. The only
+   field of a CAM with the low-frequency container whose value depends on how far the vehicle has
+   travelled is the path history: points of earlier CAMs relative to the current position
+   (Model/CamPath.v; ds = the stored points, newest first, as (DeltaLatitude, DeltaLongitude) in
+   0.1 microdegree w.r.t. the current report). For every history and every displacement - in
+   particular after a report outage of any length - each emitted point is expressible in its type on
+   BOTH axes, at most 23 are emitted ... *)
+Theorem C10_cam_path_points_encodable : forall ds,
+  (length (path_points ds) <= 23)%nat /\
+  forall p, In p (path_points ds) ->
+    -131071 <= fst p <= 131072 /\ -131071 <= snd p <= 131072.
+Proof. exact path_points_encodable. Qed.
+Print Assumptions C10_cam_path_points_encodable.
+
+(* ... and nothing more is dropped than necessary: the emitted points are the stored ones, newest
+   first, up to the end, the 23rd, or the first that is not expressible on one of the axes. *)
+Theorem C10_cam_path_points_longest_prefix : forall ds, exists rest,
+  ds = path_points ds ++ rest /\
+  (rest = [] \/ length (path_points ds) = 23%nat \/
+   exists d r, rest = d :: r /\ ~ (-131071 <= fst d <= 131072 /\ -131071 <= snd d <= 131072)).
+Proof. exact path_points_longest_prefix. Qed.
+Print Assumptions C10_cam_path_points_longest_prefix.
+
+(* The stored history never exceeds 40 points, is empty after an activation and otherwise grows by
+   the report of each CAM that was handed over. *)
+Theorem C10_cam_path_history_bounded : forall ops,
+  (length (phist ops) <= 40)%nat /\ phist (ops ++ [PClear]) = [] /\
+  forall r, phist (ops ++ [PSent r]) = firstn 40 (r :: phist ops).
+Proof. exact path_history_bounded. Qed.
+Print Assumptions C10_cam_path_history_bounded.
+
 (* Non-vacuity: concrete runs that satisfy the premises above. *)
 Example C10_example_cam_run :
   outs [Rep rep0; Start; Check 1000 0; Check 1100 0; Rep rep1; Check 1200 (1 # 2); Check 1300 (1 # 2);
@@ -256,3 +287,9 @@ Example C10_example_vam_failed_run :
   = [Vam 630000000000 true 7168; Vam 630000000100 false 7268; Vam 630000002300 true 9468;
      Vam 630000002400 false 9568].
 Proof. exact example_vrun_failed. Qed.
+
+Example C10_example_path_after_outage :
+  path_points [(-150, 20); (-300, 41); (-200000, 60); (-200000, 60)] = [(-150, 20); (-300, 41)] /\
+  path_points [(-131071, 131072); (131073, 0)] = [(-131071, 131072)] /\
+  path_points [(0, -131072); (5, 5)] = [].
+Proof. exact path_after_outage. Qed.
